@@ -83,6 +83,14 @@ func allocFamilies() []allocFamily {
 					return mk("OPTIONS", map[string][]string{"Origin": {"https://example.com"}, "Access-Control-Request-Method": {"PUT"},
 						"Access-Control-Request-Headers": lines})
 				}},
+				allocFamily{tag + "/preflight, many ACRH lines with upper-case names", c.cfg, dbg, func(n int) *http.Request {
+					lines := make([]string, min(n, 20000))
+					for i := range lines {
+						lines[i] = "X-Foo"
+					}
+					return mk("OPTIONS", map[string][]string{"Origin": {"https://example.com"}, "Access-Control-Request-Method": {"PUT"},
+						"Access-Control-Request-Headers": lines})
+				}},
 				allocFamily{tag + "/preflight, allowed ACRH with padding", c.cfg, dbg, func(n int) *http.Request {
 					return mk("OPTIONS", map[string][]string{"Origin": {"https://example.com"}, "Access-Control-Request-Method": {"PUT"},
 						"Access-Control-Request-Headers": {"authorization, x-bar ,x-foo" + strings.Repeat(",", min(n, 10))}})
@@ -130,13 +138,26 @@ func measure(f allocFamily, n int) (allocs float64, err error) {
 	h := m.Wrap(http.HandlerFunc(func(http.ResponseWriter, *http.Request) {}))
 	w := &reuseWriter{h: make(http.Header, 16)}
 	req := f.req(n)
+	// a pristine copy of the request's header values: restored (allocation-free) before every run,
+	// so that a middleware that rewrites them in place is measured on fresh values each time
+	pristine := map[string][]string{}
+	for k, v := range req.Header {
+		pristine[k] = append([]string(nil), v...)
+	}
+	restore := func() {
+		for k, v := range pristine {
+			copy(req.Header[k], v)
+		}
+	}
 	// warm up (map growth of the reusable writer)
 	for i := 0; i < 3; i++ {
 		clear(w.h)
+		restore()
 		h.ServeHTTP(w, req)
 	}
 	return testing.AllocsPerRun(20, func() {
 		clear(w.h)
+		restore()
 		h.ServeHTTP(w, req)
 	}), nil
 }
